@@ -1,1 +1,232 @@
-/-! Property theorems for C15 (statements + proofs by reference to `Proof/`). Not built yet. -/
+import GraafVerif.Proof.RandAgree
+/-!
+# C15 — seeded random generators are deterministic and always structurally valid
+
+Only statements and their proofs-by-reference live here.  The generators are the models of
+`Model/Rand.lean` (tied to the code by the correspondence run); validity is stated on a `View`
+(order, vertex list, `has_arc`) of the returned structure (`Spec/Rand.lean`).
+
+* `Stream = Nat → UInt64` is an ARBITRARY sequence of PRNG outputs: every theorem below holds for
+  every seed and for any PRNG.  The threaded `AdjacencyMap` variants take one arbitrary stream per
+  worker and the thread count `t` (= `available_parallelism()`), and hold for every `t ≥ 1`.
+* "Calling twice with equal arguments returns equal digraphs" is *functionality of the model*: each
+  generator is a Lean function of (order, p, stream(s), t).  For the one generator whose workers
+  share state (`AdjacencyMap::random_tournament`) functionality is a theorem: every interleaving
+  of the locked inserts ends in the same digraph (`tournament_schedule_independent`).
+  What the model cannot exhibit — that the OS reports the same `t` on both calls, and that the
+  real scheduler/`Mutex`/`join` behave as the transition system — is an assumption (docs/C15.md).
+* `FitsMatrix n` (`n² < 2^64`) is `AdjacencyMatrix::empty`'s overflow check (it panics otherwise).
+-/
+namespace GraafVerif.C15
+open GraafVerif.Rand GraafVerif.Repr
+
+/-- Every digraph the threaded tournament generator can return: the rows after ANY complete
+interleaving of the workers' locked inserts, collected into the map. -/
+def TournamentAMOutcome (streams : Nat → Stream) (n t : Nat) (g : AdjMap) : Prop :=
+  ∃ sched st, (tournamentInit streams n t).run sched = some st ∧ st.terminal ∧ g = finishMap n st.rows
+
+/-- Full statement of C15 on the model. -/
+def Statement : Prop :=
+  -- (1) random_tournament, sequential representations: a tournament for every stream
+  (∀ (s : Stream) (n : Nat), 1 ≤ n →
+    (∃ g, tournamentAL s n = some g ∧ IsTournament n (viewAL g)) ∧
+    (FitsMatrix n → ∃ g, tournamentMX s n = some g ∧ IsTournament n (viewMX g)) ∧
+    (∃ g, tournamentEL s n = some g ∧ IsTournament n (viewEL g))) ∧
+  -- (2) AdjacencyMap::random_tournament: for every thread count and EVERY schedule there is exactly
+  --     one outcome, it is the model function's value, and it is a tournament
+  (∀ (streams : Nat → Stream) (n t : Nat), 2 ≤ n → 1 ≤ t →
+    (∃ g, TournamentAMOutcome streams n t g) ∧
+    (∀ g, TournamentAMOutcome streams n t g → tournamentAM streams n t = some g)) ∧
+  (∀ (streams : Nat → Stream) (n t : Nat), 1 ≤ n → 1 ≤ t →
+    ∃ g, tournamentAM streams n t = some g ∧ IsTournament n (viewAM g)) ∧
+  -- (3) random_recursive_tree
+  (∀ (s : Stream) (n : Nat), 1 ≤ n →
+    (∃ g, rrtAL s n = some g ∧ IsRecursiveTree n (viewAL g)) ∧
+    (∃ g, rrtAM s n = some g ∧ IsRecursiveTree n (viewAM g)) ∧
+    (FitsMatrix n → ∃ g, rrtMX s n = some g ∧ IsRecursiveTree n (viewMX g)) ∧
+    (∃ g, rrtEL s n = some g ∧ IsRecursiveTree n (viewEL g))) ∧
+  -- (4) erdos_renyi for p ∈ [0,1] (map variant: every thread count, both the threaded rows and
+  --     the complement path for p > 0.5)
+  (∀ (s : Stream) (n : Nat) (p : F64), 1 ≤ n → p.inUnit = true →
+    (∃ g, erAL s n p = some g ∧ ErValid n p (viewAL g)) ∧
+    (FitsMatrix n → ∃ g, erMX s n p = some g ∧ ErValid n p (viewMX g)) ∧
+    (∃ g, erEL s n p = some g ∧ ErValid n p (viewEL g))) ∧
+  (∀ (streams : Nat → Stream) (n t : Nat) (p : F64), 1 ≤ n → 1 ≤ t → p.inUnit = true →
+    ∃ g, erAM streams n t p = some g ∧ ErValid n p (viewAM g)) ∧
+  -- (5) p outside [0,1] (NaN, infinities included): panic
+  (∀ (s : Stream) (streams : Nat → Stream) (n t : Nat) (p : F64), p.inUnit = false →
+    erAL s n p = none ∧ erMX s n p = none ∧ erEL s n p = none ∧ erAM streams n t p = none) ∧
+  -- (6) next_f64 ∈ [0, 1)
+  (∀ w : UInt64, 0 ≤ nextF64 w ∧ nextF64 w < 1)
+
+/-! ## random_tournament -/
+
+theorem tournament_valid_al (s : Stream) (n : Nat) (hn : 1 ≤ n) :
+    ∃ g, tournamentAL s n = some g ∧ IsTournament n (viewAL g) := tournamentAL_valid s n hn
+
+theorem tournament_valid_mx (s : Stream) (n : Nat) (hn : 1 ≤ n) (hb : FitsMatrix n) :
+    ∃ g, tournamentMX s n = some g ∧ IsTournament n (viewMX g) := tournamentMX_valid s n hn hb
+
+theorem tournament_valid_el (s : Stream) (n : Nat) (hn : 1 ≤ n) :
+    ∃ g, tournamentEL s n = some g ∧ IsTournament n (viewEL g) := tournamentEL_valid s n hn
+
+/-- C17 piece: valid for EVERY thread count `t ≥ 1` and arbitrary per-worker streams. -/
+theorem tournament_valid_am (streams : Nat → Stream) (n t : Nat) (hn : 1 ≤ n) (ht : 1 ≤ t) :
+    ∃ g, tournamentAM streams n t = some g ∧ IsTournament n (viewAM g) :=
+  tournamentAM_valid streams n t hn ht
+
+/-- P1 (C15/C17): for every interleaving of the workers' locked inserts, once all workers have
+finished the shared rows are the rows of the join-order run the model function uses. -/
+theorem tournament_schedule_independent (streams : Nat → Stream) (n t : Nat) (sched : List Nat) (st : TState)
+    (hrun : (tournamentInit streams n t).run sched = some st) (hterm : st.terminal) :
+    st.rows = (tournamentProgs streams n t).flatten.foldl rowInsert (List.replicate n []) :=
+  schedule_independent streams n t sched st hrun hterm
+
+/-- Some interleaving completes (the theorem above is not vacuous), from every state. -/
+theorem tournament_schedule_exists (st : TState) : ∃ sched st', st.run sched = some st' ∧ st'.terminal :=
+  exists_complete_schedule st
+
+/-- Determinism of the threaded tournament: its outcome relation is a function, namely `tournamentAM`. -/
+theorem tournament_am_outcome_unique (streams : Nat → Stream) (n t : Nat) (hn : 2 ≤ n) (g : AdjMap)
+    (h : TournamentAMOutcome streams n t g) : tournamentAM streams n t = some g := by
+  obtain ⟨sched, st, hrun, hterm, rfl⟩ := h
+  have h0 : ¬ n = 0 := by omega
+  have h1 : ¬ n = 1 := by omega
+  simp only [tournamentAM, h0, h1, if_false]
+  rw [schedule_independent streams n t sched st hrun hterm]
+
+theorem tournament_am_outcome_exists (streams : Nat → Stream) (n t : Nat) :
+    ∃ g, TournamentAMOutcome streams n t g := by
+  obtain ⟨sched, st, h1, h2⟩ := exists_complete_schedule (tournamentInit streams n t)
+  exact ⟨_, sched, st, h1, h2, rfl⟩
+
+/-! ## random_recursive_tree -/
+
+theorem rrt_valid_al (s : Stream) (n : Nat) (hn : 1 ≤ n) :
+    ∃ g, rrtAL s n = some g ∧ IsRecursiveTree n (viewAL g) := rrtAL_valid s n hn
+theorem rrt_valid_am (s : Stream) (n : Nat) (hn : 1 ≤ n) :
+    ∃ g, rrtAM s n = some g ∧ IsRecursiveTree n (viewAM g) := rrtAM_valid s n hn
+theorem rrt_valid_mx (s : Stream) (n : Nat) (hn : 1 ≤ n) (hb : FitsMatrix n) :
+    ∃ g, rrtMX s n = some g ∧ IsRecursiveTree n (viewMX g) := rrtMX_valid s n hn hb
+theorem rrt_valid_el (s : Stream) (n : Nat) (hn : 1 ≤ n) :
+    ∃ g, rrtEL s n = some g ∧ IsRecursiveTree n (viewEL g) := rrtEL_valid s n hn
+
+/-! ## erdos_renyi -/
+
+theorem er_valid_al (s : Stream) (n : Nat) (p : F64) (hn : 1 ≤ n) (hp : p.inUnit = true) :
+    ∃ g, erAL s n p = some g ∧ ErValid n p (viewAL g) := erAL_valid s n p hn hp
+theorem er_valid_mx (s : Stream) (n : Nat) (p : F64) (hn : 1 ≤ n) (hb : FitsMatrix n) (hp : p.inUnit = true) :
+    ∃ g, erMX s n p = some g ∧ ErValid n p (viewMX g) := erMX_valid s n p hn hb hp
+theorem er_valid_el (s : Stream) (n : Nat) (p : F64) (hn : 1 ≤ n) (hp : p.inUnit = true) :
+    ∃ g, erEL s n p = some g ∧ ErValid n p (viewEL g) := erEL_valid s n p hn hp
+
+/-- C17 piece: valid for EVERY thread count `t ≥ 1`, for `p ≤ 0.5` (threaded rows) and for
+`p > 0.5` (`complement` of the `1 - p` digraph; `1 - p` exact, see `F64.oneMinus`). -/
+theorem er_valid_am (streams : Nat → Stream) (n t : Nat) (p : F64) (hn : 1 ≤ n) (ht : 1 ≤ t) (hp : p.inUnit = true) :
+    ∃ g, erAM streams n t p = some g ∧ ErValid n p (viewAM g) := erAM_valid streams n t p hn ht hp
+
+/-- `p ∉ [0,1]` (also NaN, ±∞): every representation panics. -/
+theorem er_panics (s : Stream) (streams : Nat → Stream) (n t : Nat) (p : F64) (hp : p.inUnit = false) :
+    erAL s n p = none ∧ erMX s n p = none ∧ erEL s n p = none ∧ erAM streams n t p = none :=
+  ⟨erAL_panics s n p hp, erMX_panics s n p hp, erEL_panics s n p hp, erAM_panics streams n t p hp⟩
+
+/-- Fuel adequacy of the `erdos_renyi(order, 1.0 - p, seed).complement()` recursion: depth ≤ 1. -/
+theorem er_am_fuel (streams : Nat → Stream) (n t k : Nat) (p : F64) :
+    erAMF streams n t (k + 2) p = erAMF streams n t 2 p := erAM_fuel streams n t k p
+
+/-! ## next_f64 -/
+
+/-- `Xoshiro256StarStar::next_f64` lies in `[0, 1)`, for every 64-bit draw. -/
+theorem next_f64_range (w : UInt64) : 0 ≤ nextF64 w ∧ nextF64 w < 1 := nextF64_range w
+
+/-- The model's integer comparison IS `next_f64() < p` on the exact rational values. -/
+theorem next_f64_lt_iff (w : UInt64) (num : Int) :
+    f64lt w (.fin num) = true ↔ nextF64 w < (num : Rat) / 2^1074 := f64lt_fin w num
+
+/-! ## determinism -/
+
+/-- Equal arguments (order, seed, `p`, thread count) give equal results: the generators are
+functions.  (Stated for the exact PRNG streams the driver uses; trivially true of any function —
+the content is that the MODEL is a function, schedule independence being the non-trivial part.) -/
+theorem generators_deterministic (seed₁ seed₂ : UInt64) (n₁ n₂ t₁ t₂ : Nat) (p₁ p₂ : F64)
+    (hs : seed₁ = seed₂) (hn : n₁ = n₂) (ht : t₁ = t₂) (hp : p₁ = p₂) :
+    tournamentAL (xoStream seed₁) n₁ = tournamentAL (xoStream seed₂) n₂ ∧
+    tournamentMX (xoStream seed₁) n₁ = tournamentMX (xoStream seed₂) n₂ ∧
+    tournamentEL (xoStream seed₁) n₁ = tournamentEL (xoStream seed₂) n₂ ∧
+    tournamentAM (xoStreams seed₁) n₁ t₁ = tournamentAM (xoStreams seed₂) n₂ t₂ ∧
+    rrtAL (xoStream seed₁) n₁ = rrtAL (xoStream seed₂) n₂ ∧
+    rrtAM (xoStream seed₁) n₁ = rrtAM (xoStream seed₂) n₂ ∧
+    rrtMX (xoStream seed₁) n₁ = rrtMX (xoStream seed₂) n₂ ∧
+    rrtEL (xoStream seed₁) n₁ = rrtEL (xoStream seed₂) n₂ ∧
+    erAL (xoStream seed₁) n₁ p₁ = erAL (xoStream seed₂) n₂ p₂ ∧
+    erMX (xoStream seed₁) n₁ p₁ = erMX (xoStream seed₂) n₂ p₂ ∧
+    erEL (xoStream seed₁) n₁ p₁ = erEL (xoStream seed₂) n₂ p₂ ∧
+    erAM (xoStreams seed₁) n₁ t₁ p₁ = erAM (xoStreams seed₂) n₂ t₂ p₂ := by
+  subst hs hn ht hp
+  exact ⟨rfl, rfl, rfl, rfl, rfl, rfl, rfl, rfl, rfl, rfl, rfl, rfl⟩
+
+/-- The array-backed stream the driver runs the model on is the stream of the seed. -/
+theorem driver_stream_exact (seed : UInt64) (k i : Nat) (h : i < k) :
+    streamOfArray (xoTake seed k) i = xoStream seed i := streamOfArray_xoTake seed k i h
+
+/-! ## agreement between representations (not part of the property text; the code makes them agree) -/
+
+/-- The sequential representations consume the stream identically: equal arguments, same digraph. -/
+theorem tournament_representations_agree (s : Stream) (n : Nat) (hn : 1 ≤ n) (hb : FitsMatrix n) :
+    ∃ a m e, tournamentAL s n = some a ∧ tournamentMX s n = some m ∧ tournamentEL s n = some e ∧
+      SameDigraph (viewAL a) (viewMX m) ∧ SameDigraph (viewAL a) (viewEL e) := tournament_agree s n hn hb
+
+theorem rrt_representations_agree (s : Stream) (n : Nat) (hn : 1 ≤ n) (hb : FitsMatrix n) :
+    ∃ a g m e, rrtAL s n = some a ∧ rrtAM s n = some g ∧ rrtMX s n = some m ∧ rrtEL s n = some e ∧
+      SameDigraph (viewAL a) (viewAM g) ∧ SameDigraph (viewAL a) (viewMX m) ∧ SameDigraph (viewAL a) (viewEL e) :=
+  rrt_agree s n hn hb
+
+theorem er_representations_agree (s : Stream) (n : Nat) (p : F64) (hn : 1 ≤ n) (hb : FitsMatrix n)
+    (hp : p.inUnit = true) :
+    ∃ a m e, erAL s n p = some a ∧ erMX s n p = some m ∧ erEL s n p = some e ∧
+      SameDigraph (viewAL a) (viewMX m) ∧ SameDigraph (viewAL a) (viewEL e) := er_agree s n p hn hb hp
+
+/-- With a single worker (`t = 1`) the threaded map generators produce the sequential digraph of
+worker 0's stream (tournament; Erdős–Rényi for `p ≤ 0.5`). -/
+theorem tournament_am_single_worker (streams : Nat → Stream) (n : Nat) (hn : 1 ≤ n) :
+    ∃ a g, tournamentAL (streams 0) n = some a ∧ tournamentAM streams n 1 = some g ∧
+      SameDigraph (viewAL a) (viewAM g) := tournament_am_single streams n hn
+
+theorem er_am_single_worker (streams : Nat → Stream) (n : Nat) (p : F64) (hn : 2 ≤ n) (hp : p.inUnit = true)
+    (hh : p.gtHalf = false) :
+    ∃ a, erAL (streams 0) n p = some a ∧ SameDigraph (viewAL a) (viewAM (erMapCore streams n 1 p)) ∧
+      erAM streams n 1 p = some (erMapCore streams n 1 p) := er_am_single streams n p hn hp hh
+
+/-! ## the full statement -/
+
+theorem statement_holds : Statement :=
+  ⟨fun s n hn => ⟨tournament_valid_al s n hn, tournament_valid_mx s n hn, tournament_valid_el s n hn⟩,
+   fun streams n t hn _ => ⟨tournament_am_outcome_exists streams n t, tournament_am_outcome_unique streams n t hn⟩,
+   tournament_valid_am,
+   fun s n hn => ⟨rrt_valid_al s n hn, rrt_valid_am s n hn, rrt_valid_mx s n hn, rrt_valid_el s n hn⟩,
+   fun s n p hn hp => ⟨er_valid_al s n p hn hp, fun hb => er_valid_mx s n p hn hb hp, er_valid_el s n p hn hp⟩,
+   er_valid_am, er_panics, next_f64_range⟩
+
+/-! ## non-vacuity -/
+
+/-- the bit-exact PRNG reproduces the pinned outputs of the Rust unit test `first_3` -/
+example : (List.range 3).map (fun i => (xoStream 0 i).toNat) =
+    [0x99EC5F36CB75F2B4, 0xBF6E1F784956452A, 0x1A5F849D4933E6E0] := by decide
+/-- concrete generated digraphs (also observed from the real code by the correspondence run) -/
+example : tournamentAL (xoStream 5) 4 = some ⟨[[1], [2, 3], [0, 3], [0]]⟩ := by decide
+example : tournamentAM (xoStreams 5) 5 3 =
+    some ⟨[(0, [1, 4]), (1, [2, 3, 4]), (2, [0, 3, 4]), (3, [0]), (4, [3])]⟩ := by decide
+example : (rrtAL (xoStream 7) 5).isSome = true := by decide
+set_option exponentiation.threshold 1100
+/-- hypotheses are satisfiable: p = 0.75 lies in [0,1] and takes the complement path -/
+example : (F64.ofBits 0x3FE8000000000000).inUnit = true ∧ (F64.ofBits 0x3FE8000000000000).gtHalf = true := by decide
+example : (erAM (xoStreams 5) 5 3 (F64.ofBits 0x3FE8000000000000)).isSome = true := by decide
+/-- NaN, -0.1 and 1.5 are rejected; -0.0 and the smallest subnormal are accepted -/
+example : (F64.ofBits 0x7FF8000000000000).inUnit = false ∧ (F64.ofBits 0xBFB999999999999A).inUnit = false ∧
+    (F64.ofBits 0x3FF8000000000000).inUnit = false ∧ (F64.ofBits 0x8000000000000000).inUnit = true ∧
+    (F64.ofBits 1).inUnit = true := by decide
+/-- a complete schedule of a run with 3 workers (7, 3 and 0 inserts) that is NOT the join order ends in the model's rows -/
+example : ((tournamentInit (xoStreams 5) 5 3).run [1, 0, 0, 1, 0, 0, 0, 1, 0, 0]).map (·.rows) =
+    some ((tournamentProgs (xoStreams 5) 5 3).flatten.foldl rowInsert (List.replicate 5 [])) := by decide
+
+end GraafVerif.C15
